@@ -18,6 +18,7 @@
    reference fit uses the certified solver NV.Lib.C05Lin.solve_normal. *)
 From Coq Require Import List Arith Lia Bool ZArith QArith Qcanon Qabs Qround.
 From NV.Lib Require Import RingMat C05Lin.
+From NV.Generated Require Import PosRecipr.
 Import ListNotations.
 Close Scope Qc_scope.
 Close Scope Q_scope.
@@ -409,3 +410,14 @@ Definition ar_voxel_beta (R : Type) (r0 r1 : R) (radd rmul rsub rdiv : R -> R ->
               | None => []
               end in
   map (fun i => nth i bcol r0) (seq 0 p).
+
+(* ------------------------------------------------------------------ nipy/algorithms/utils/matrices.py : pos_recipr
+     gt_0 = X > pr_threshold;  out[gt_0] = pr_numerator / X[gt_0];  the other entries are 0
+   (threshold and numerator are TRANSLATED from the current source: Generated/PosRecipr.v).
+   model.py forms every statistic of the models package through it:
+     Tcontrast (258):  t = effect * pos_recipr(sd)           t() (161): theta * pos_recipr(sqrt(cov))
+     Fcontrast (314):  F = (ctheta' invcov ctheta) * pos_recipr(q * dispersion)                    *)
+Definition q_pos_recipr (x : Qc) : Qc :=
+  if Qle_bool (this x) pr_threshold then q0 else Qcdiv (Q2Qc pr_numerator) x.
+Definition q_tstat (eff sd : Qc) : Qc := Qcmult eff (q_pos_recipr sd).
+Definition q_fstat (quad q disp : Qc) : Qc := Qcmult quad (q_pos_recipr (Qcmult q disp)).
